@@ -292,6 +292,7 @@ PROPS = {
         "theorems": ["Hctl.C19.explode_semantics", "Hctl.C19.flatten_semantics", "Hctl.C19.implicit_semantics",
                      "Hctl.C19.explode_names_injective", "Hctl.C19.fresh_names_injective", "Hctl.C19.every_instantiation_induced",
                      "Hctl.C19.flatten_family", "Hctl.C19.implicit_family", "Hctl.C19.generated_not_variable",
+                     "Hctl.C19.specified_always_flattened", "Hctl.C19.implicit_exploded",
                      "Hctl.C19.flatten_specified", "Hctl.C19.no_regulators_untouched"],
         "ks": ["k10"],
         "spec_tied": [],
